@@ -272,11 +272,79 @@ func main() {
 			viol("impl-violation", fmt.Sprintf("backend behaviour %d but the attempt was answered %q", a.status, strings.TrimSpace(answer)))
 		}
 	}
+	if o.Replay == "" {
+		saslReuse(rep, w, sock, &cur)
+	}
 	if len(atts) > 0 {
 		rep.Sample(atts[len(atts)/2].line())
 		rep.Sample(fmt.Sprintf("%s user=%q pw=%q status=%d", atts[len(atts)-1].via, atts[len(atts)-1].user, atts[len(atts)-1].pw, atts[len(atts)-1].status))
 	}
 	rep.Finish()
+}
+
+// saslReuse: several requests on one SASL connection, as a mail server's process reuses it for one client after the other.
+// Every request is answered by one line with its own id; a request that carries no response is answered CONT and asks the
+// backend nothing; a request that carries one asks the backend about exactly the credentials in *that* request.
+func saslReuse(rep *hx.Report, w *world.World, sock string, cur *attempt) {
+	conn, err := net.Dial("unix", sock)
+	if err != nil {
+		rep.Violate("broken-correspondence", "sasl", "cannot reach the SASL socket: "+err.Error(), nil)
+		return
+	}
+	defer conn.Close()
+	rd := bufio.NewReader(conn)
+	b64 := func(u, p string) string { return base64.StdEncoding.EncodeToString([]byte("\x00" + u + "\x00" + p)) }
+	type rq struct {
+		line         string
+		id           string
+		status       int
+		wantVerb     string
+		wantUser, pw string // "" = the backend must not be asked
+	}
+	seq := []rq{
+		{"AUTH\t11\tPLAIN\tservice=smtp\tresp=" + b64("alice", "alicepw"), "11", 200, "OK", "alice", "alicepw"},
+		{"AUTH\t12\tPLAIN\tservice=smtp", "12", 200, "CONT", "", ""},
+		{"AUTH\t13\tLOGIN\tservice=smtp", "13", 200, "CONT", "", ""},
+		{"AUTH\t14\tPLAIN\tservice=smtp\tresp=" + b64("bob", "bobpw"), "14", 401, "FAIL", "bob", "bobpw"},
+		{"AUTH\t15\tPLAIN", "15", 200, "CONT", "", ""},
+		{"AUTH\t16\tPLAIN\tresp=" + b64("carol@example.com", "c pw"), "16", 200, "OK", "carol@example.com", "c pw"},
+		{"AUTH\t17\tPLAIN\tservice=imap\tnologin", "17", 200, "CONT", "", ""},
+	}
+	var replay []string
+	for _, q := range seq {
+		replay = append(replay, "sasl-line "+hx.H(q.line))
+		rep.Case("sasl-reuse|"+q.id, true)
+		cur.status = q.status
+		w.Backend.Take()
+		fmt.Fprintf(conn, "%s\n", q.line)
+		conn.SetReadDeadline(time.Now().Add(15 * time.Second))
+		line, _ := rd.ReadString('\n')
+		f := strings.Split(strings.TrimSuffix(line, "\n"), "\t")
+		bodies := w.Backend.Take()
+		if len(f) < 2 || f[1] != q.id || f[0] != q.wantVerb {
+			rep.Violate("impl-violation", "authentication vs Model/Auth (Props.C04: one answer per request, for the credentials of that request)", fmt.Sprintf("request %q on a connection that has carried other requests before was answered %q (expected %s with id %s); the backend received %v", q.line, line, q.wantVerb, q.id, bodies), replay)
+			return
+		}
+		if q.wantUser == "" {
+			if len(bodies) != 0 {
+				rep.Violate("impl-violation", "authentication vs Model/Auth (Props.C04: nothing is verified that the client did not supply)", fmt.Sprintf("request %q carries no credentials, yet the backend was asked %v", q.line, bodies), replay)
+				return
+			}
+			rep.Hit("sasl-reuse:cont")
+			continue
+		}
+		email := q.wantUser
+		if !strings.Contains(email, "@") {
+			email += "@example.com"
+		}
+		var got map[string]any
+		if len(bodies) != 1 || json.Unmarshal([]byte(bodies[0]), &got) != nil || got["email"] != email || got["password"] != q.pw {
+			rep.Violate("impl-violation", "authentication vs Model/Auth (Props.C04: the credentials of this request, unaltered)", fmt.Sprintf("request %q: the backend received %v, expected exactly email=%q password=%q", q.line, bodies, email, q.pw), replay)
+			return
+		}
+		rep.Hit("sasl-reuse:" + strings.ToLower(q.wantVerb))
+	}
+	cur.status = 200
 }
 
 func parse(ls []string) []attempt {
